@@ -73,15 +73,14 @@ Definition d_c17 (op : string) (a : val) : option val :=
       match get_dtype dt, get3Ns v, get3Ns t with
       | Some dt, Some v, Some t =>
           Some (VL [v_outcome VS (write_mesh dt v t); VS (written_before_type_error v);
-                    vbool (mesh_wf v t); vbool (mesh_wf_lenient v t)])
+                    vbool (mesh_wf v t)])
       | _, _, _ => Some bad end
   | "mesh_precheck", VL [a; b; c] =>
       match getN a, getN b, getN c with
       | Some a, Some b, Some c => Some (v_outcome (fun _ => VL []) (writer_precheck a b c))
       | _, _, _ => Some bad end
   | "mesh_read", VS b =>
-      Some (VL [v_outcome vmesh (read_mesh b); vopt vmesh (spec_parse b);
-                vbool (reader_guard b); vbool (index_eq_count b)])
+      Some (VL [v_outcome vmesh (read_mesh b); vopt vmesh (spec_parse b)])
   | "affine", VL [VZ rows; last; VL [r1; r2; r3; t]; vs; ts] =>
       match getZs last, get3Z r1, get3Z r2, get3Z r3, get3Z t, get3Zs vs, get3Zs ts with
       | Some last, Some r1, Some r2, Some r3, Some t, Some vs, Some ts =>
